@@ -427,9 +427,6 @@ def evaluate(sim, mon, o, res, case, offered_ticket, where="c"):
             res.count("%s_early_data_accepted" % where)
         return outcome
     # not both complete although something is shared
-    if sh["alpn"] == "either":
-        res.count("obs_alpn_none_one_side:" + outcome)
-        return outcome
     if sim.api_raised is not None:
         res.count("obs_api_raised_during_handshake")
         return outcome
@@ -438,6 +435,9 @@ def evaluate(sim, mon, o, res, case, offered_ticket, where="c"):
         # CertificateRequest (correct for a PSK handshake) yet waits for a Certificate. Not a configuration the
         # library supports through its API -> 'either' region, reported as an observation.
         res.count("obs_client_cert_flag_with_accepted_psk:" + outcome)
+        return outcome
+    if sh["alpn"] == "either":
+        res.count("obs_alpn_none_one_side:" + outcome)
         return outcome
     res.count("%s_progress_evaluated" % where)
     res.violation(
